@@ -10,13 +10,17 @@ import (
 	"bufio"
 	"context"
 	"encoding/json"
+	"errors"
 	"flag"
 	"fmt"
 	"os"
 	"sort"
+	"strconv"
 	"strings"
 
 	"github.com/go-logr/logr"
+	ngxclient "github.com/nginxinc/nginx-plus-go-client/client"
+	v1 "k8s.io/api/core/v1"
 	discoveryV1 "k8s.io/api/discovery/v1"
 	metav1 "k8s.io/apimachinery/pkg/apis/meta/v1"
 	"k8s.io/apimachinery/pkg/types"
@@ -24,10 +28,12 @@ import (
 	"sigs.k8s.io/gateway-api/apis/v1alpha2"
 
 	ngfAPI "github.com/nginx/nginx-gateway-fabric/apis/v1alpha1"
+	"github.com/nginx/nginx-gateway-fabric/internal/framework/events"
 	static "github.com/nginx/nginx-gateway-fabric/internal/mode/static"
 	ngfConfig "github.com/nginx/nginx-gateway-fabric/internal/mode/static/config"
 	ngxConfig "github.com/nginx/nginx-gateway-fabric/internal/mode/static/nginx/config"
 	"github.com/nginx/nginx-gateway-fabric/internal/mode/static/nginx/runtime"
+	"github.com/nginx/nginx-gateway-fabric/internal/mode/static/state"
 	"github.com/nginx/nginx-gateway-fabric/internal/mode/static/state/dataplane"
 	"github.com/nginx/nginx-gateway-fabric/internal/mode/static/state/graph"
 	"github.com/nginx/nginx-gateway-fabric/internal/mode/static/state/resolver"
@@ -140,8 +146,8 @@ func genResolve(r *rng.R) resolveIn {
 	if hostile && r.Chance(4, 100) {
 		in.Name = ""
 	}
-	in.Slices = genWorld(r, in.Ns, in.Name, 6, hostile)
 	in.SP = genSvcPort(r, hostile)
+	in.Slices = genWorld(r, in.Ns, in.Name, 6, hostile, []string{in.SP.Name})
 	in.Allowed = genAllowed(r)
 	return in
 }
@@ -255,18 +261,22 @@ func buildGraph(fam string, refs []jRef) *graph.Graph {
 }
 
 func newHandler(plus bool, n *fakeNginx) *static.VerifC13Handler {
+	return static.VerifC13NewHandler(newHandlerDeps(plus, n))
+}
+
+func newHandlerDeps(plus bool, n *fakeNginx) static.VerifC13Deps {
 	var mgr *runtime.ManagerImpl
 	if plus {
 		mgr = runtime.NewManagerImpl(n, nil, logr.Discard(), nil, nil)
 	} else {
 		mgr = runtime.NewManagerImpl(nil, nil, logr.Discard(), nil, nil)
 	}
-	return static.VerifC13NewHandler(static.VerifC13Deps{
+	return static.VerifC13Deps{
 		Plus:       plus,
 		Generator:  ngxConfig.NewGeneratorImpl(plus, &ngfConfig.UsageReportConfig{}, logr.Discard()),
 		FileMgr:    n,
 		RuntimeMgr: fakeManager{ManagerImpl: mgr, n: n},
-	})
+	}
 }
 
 func toJUps(ups []dataplane.Upstream) []jUp {
@@ -313,7 +323,6 @@ func runPipe(in pipeIn) (out pipeOut) {
 func genPipe(r *rng.R) pipeIn {
 	in := pipeIn{Fam: rng.Pick(r, []string{"dual", "dual", "ipv4", "ipv6"}), Plus: r.Chance(40, 100)}
 	ns, name := rng.Pick(r, nsPool), rng.Pick(r, svcPool)
-	in.Slices = genWorld(r, ns, name, 7, false)
 	nRefs := r.Range(1, 4)
 	ports := map[string]jSvcPort{}
 	for i := 0; i < nRefs; i++ {
@@ -330,6 +339,11 @@ func genPipe(r *rng.R) pipeIn {
 		ref.SP = sp
 		in.Refs = append(in.Refs, ref)
 	}
+	prefer := []string{}
+	for _, ref := range in.Refs {
+		prefer = append(prefer, ref.SP.Name)
+	}
+	in.Slices = genWorld(r, ns, name, 7, false, prefer)
 	return in
 }
 
@@ -352,56 +366,79 @@ type plusOut struct {
 	Calls []int      `json:"calls"` // API update calls made by each op
 }
 
-func toConf(op plusOp, version int) dataplane.Configuration {
-	conf := dataplane.Configuration{
-		Version:          version,
-		AuxiliarySecrets: map[graph.SecretFileType][]byte{graph.PlusReportJWTToken: []byte("token")},
-	}
-	for _, u := range op.HTTP {
-		conf.Upstreams = append(conf.Upstreams, dataplane.Upstream{Name: u.Name, Endpoints: fromJEps(u.Eps)})
-	}
-	for _, u := range op.Stream {
-		conf.StreamUpstreams = append(conf.StreamUpstreams, dataplane.Upstream{Name: u.Name, Endpoints: fromJEps(u.Eps)})
-	}
-	return conf
+// fakeResolver serves the synthetic endpoint lists of the current step (the real resolver is exercised by the
+// resolve, pipe and e2e modes; here arbitrary endpoint lists are pushed through the real handler).
+type fakeResolver struct {
+	eps map[string][]resolver.Endpoint
 }
 
+func (f *fakeResolver) Resolve(
+	_ context.Context, n types.NamespacedName, p v1.ServicePort, _ []discoveryV1.AddressType,
+) ([]resolver.Endpoint, error) {
+	eps := f.eps[fmt.Sprintf("%s_%s_%d", n.Namespace, n.Name, p.Port)]
+	if len(eps) == 0 {
+		return nil, errors.New("no endpoints found")
+	}
+	return eps, nil
+}
+
+// refOfName inverts BackendRef.ServicePortReference for the generated upstream names (ns_name_port).
+func refOfName(name string, stream bool) jRef {
+	parts := strings.Split(name, "_")
+	port, _ := strconv.Atoi(parts[len(parts)-1])
+	return jRef{
+		Ns: parts[0], Name: strings.Join(parts[1:len(parts)-1], "_"),
+		SP: jSvcPort{Name: "p", Port: int32(port)}, Stream: stream,
+	}
+}
+
+// runPlus drives the real HandleEventBatch: "reload" = ClusterStateChange, "endpoints" = EndpointsOnlyChange.
 func runPlus(in plusIn) (out plusOut) {
+	out.Errs = []string{}
 	n := newFakeNginx()
-	h := newHandler(true, n)
-	for i, op := range in.Ops {
+	c := newK8sClient(nil)
+	p := &fakeProcessor{}
+	fr := &fakeResolver{}
+	mk := func(n *fakeNginx, p *fakeProcessor) *static.VerifC13Handler {
+		d := newHandlerDeps(true, n)
+		d.Processor, d.Resolver, d.StatusUpdater, d.K8sClient, d.DeployCtx = p, fr, fakeStatus{}, c, fakeDepCtx{}
+		return static.VerifC13NewHandler(d)
+	}
+	h := mk(n, p)
+	for _, op := range in.Ops {
 		func() {
 			defer func() {
 				if r := recover(); r != nil {
 					out.Errs = append(out.Errs, "panic: "+fmt.Sprint(r))
 				}
 			}()
-			conf := toConf(op, i+1)
-			var err error
+			fr.eps = map[string][]resolver.Endpoint{}
+			var refs []jRef
+			for _, u := range op.HTTP {
+				fr.eps[u.Name] = fromJEps(u.Eps)
+				refs = append(refs, refOfName(u.Name, false))
+			}
+			for _, u := range op.Stream {
+				fr.eps[u.Name] = fromJEps(u.Eps)
+				refs = append(refs, refOfName(u.Name, true))
+			}
 			var alt *ngxView
 			before := n.apiCalls
 			if op.Op == "reload" {
-				err = h.UpdateNginxConf(context.Background(), conf)
+				p.ct, p.g = state.ClusterStateChange, buildGraph("dual", refs)
 			} else {
 				n2 := n.clone()
-				h2 := newHandler(true, n2)
-				if e2 := h2.UpdateNginxConf(context.Background(), conf); e2 != nil {
-					out.Errs = append(out.Errs, "alt: "+e2.Error())
-				}
+				h2 := mk(n2, &fakeProcessor{ct: state.ClusterStateChange, g: buildGraph("dual", refs)})
+				h2.HandleEventBatch(context.Background(), events.EventBatch{})
 				v := n2.view()
 				alt = &v
-				err = h.UpdateUpstreamServers(conf)
+				p.ct, p.g = state.EndpointsOnlyChange, buildGraph("dual", refs)
 			}
-			if err != nil {
-				out.Errs = append(out.Errs, err.Error())
-			}
+			h.HandleEventBatch(context.Background(), events.EventBatch{})
 			out.Views = append(out.Views, n.view())
 			out.Alts = append(out.Alts, alt)
 			out.Calls = append(out.Calls, n.apiCalls-before)
 		}()
-	}
-	if out.Errs == nil {
-		out.Errs = []string{}
 	}
 	return out
 }
@@ -501,12 +538,71 @@ func genPlus(r *rng.R, maxOps int) plusIn {
 	return in
 }
 
+// ------------------------------------------------------------------ seq: serversEqual alone
+
+type seqIn struct {
+	New []string `json:"new"`
+	Old []string `json:"old"`
+}
+
+type seqOut struct {
+	Eq       bool `json:"eq"`
+	EqStream bool `json:"eqStream"`
+}
+
+func runSeq(in seqIn) seqOut {
+	var ns []ngxclient.UpstreamServer
+	var nss []ngxclient.StreamUpstreamServer
+	var os []ngxclient.Peer
+	var oss []ngxclient.StreamPeer
+	for _, x := range in.New {
+		ns = append(ns, ngxclient.UpstreamServer{Server: x})
+		nss = append(nss, ngxclient.StreamUpstreamServer{Server: x})
+	}
+	for i, x := range in.Old {
+		os = append(os, ngxclient.Peer{Server: x, ID: i})
+		oss = append(oss, ngxclient.StreamPeer{Server: x, ID: i})
+	}
+	return seqOut{Eq: static.VerifC13ServersEqual(ns, os), EqStream: static.VerifC13StreamServersEqual(nss, oss)}
+}
+
+func genSeq(r *rng.R) seqIn {
+	pool := []string{"10.0.0.1:80", "10.0.0.2:80", "10.0.0.3:80", "[fd00::1]:80", "10.0.0.1:8080"}
+	pick := func(dups bool) []string {
+		n := r.Intn(5)
+		out := []string{}
+		for i := 0; i < n; i++ {
+			x := rng.Pick(r, pool)
+			dup := false
+			for _, o := range out {
+				if o == x {
+					dup = true
+				}
+			}
+			if !dup || dups {
+				out = append(out, x)
+			}
+		}
+		return out
+	}
+	dups := r.Chance(25, 100)
+	in := seqIn{New: pick(dups), Old: pick(dups)}
+	if r.Chance(30, 100) { // a permutation, possibly with one element replaced
+		in.New = append([]string{}, in.Old...)
+		rng.Shuffle(r, in.New)
+		if len(in.New) > 0 && r.Bool() {
+			in.New[r.Intn(len(in.New))] = rng.Pick(r, pool)
+		}
+	}
+	return in
+}
+
 // ------------------------------------------------------------------ main
 
 func Run(args []string) int {
 	fs := flag.NewFlagSet("c13", flag.ContinueOnError)
 	seed := fs.Uint64("seed", 1, "seed")
-	mode := fs.String("mode", "resolve", "resolve|pipe|plus|replay")
+	mode := fs.String("mode", "resolve", "resolve|pipe|plus|e2e|seq|replay")
 	n := fs.Int("n", 100, "number of cases")
 	maxOps := fs.Int("maxops", 8, "maximum sequence length (plus)")
 	if err := fs.Parse(args); err != nil {
@@ -553,6 +649,16 @@ func Run(args []string) int {
 				if json.Unmarshal(raw.In, &in) == nil {
 					emit(line{"plus", id, in, runPlus(in)})
 				}
+			case "e2e":
+				var in e2eIn
+				if json.Unmarshal(raw.In, &in) == nil {
+					emit(line{"e2e", id, in, runE2E(in)})
+				}
+			case "seq":
+				var in seqIn
+				if json.Unmarshal(raw.In, &in) == nil {
+					emit(line{"seq", id, in, runSeq(in)})
+				}
 			}
 		}
 		return 0
@@ -570,6 +676,12 @@ func Run(args []string) int {
 		case "plus":
 			in := genPlus(r, *maxOps)
 			emit(line{"plus", i, in, runPlus(in)})
+		case "e2e":
+			in := genE2E(r, *maxOps)
+			emit(line{"e2e", i, in, runE2E(in)})
+		case "seq":
+			in := genSeq(r)
+			emit(line{"seq", i, in, runSeq(in)})
 		default:
 			fmt.Fprintln(os.Stderr, "unknown mode")
 			return 2
